@@ -35,20 +35,26 @@ Match(p, f) == CASE p = "py"   -> f.name \in {"a.py", "test_a.py"}
 AnyMatch(ps, f) == \E p \in ps : Match(p, f)
 
 \* proper containment: d is the file's directory or an ancestor of it
-Contains(d, f) == \/ f.dir = d
+\* the rule for "/" governs the files that lie directly in the project root, and only those
+Contains(d, f) == \/ (d # "/" /\ f.dir = d)
+                  \/ (d = "/" /\ f.dir = "")
                   \/ (d = "src" /\ f.dir = "src/app")
 \* string-prefix test as coded: "src" is also a prefix of "src_old" and "src/app"
 PrefixOf(d, f) == Contains(d, f) \/ (d = "src" /\ f.dir = "src_old")
-DepthOf(d) == IF d = "src/app" THEN 2 ELSE 1
+DepthOf(d) == IF d = "src/app" THEN 2 ELSE IF d = "/" THEN 0 ELSE 1
 
-RuleDirs == {"src", "src/app", "tests"}
+RuleDirs == {"/", "src", "src/app", "tests"}
 AllowOpts == {No, Li({}), Li({"py"}), Li({"md"}), Li({"py", "md"})}
 DenyOpts  == {No, Li({"test"}), Li({"md"})}
 RuleOpts  == {[present |-> FALSE, allow |-> No, deny |-> No]} \cup [present : {TRUE}, allow : AllowOpts, deny : DenyOpts]
 
 VARIABLES rules, gdeny, gpat, done
 vars == <<rules, gdeny, gpat, done>>
-Init == /\ rules \in {r \in [RuleDirs -> RuleOpts] : WithTestsRule \/ ~r["tests"].present}
+RootOpts == {[present |-> FALSE, allow |-> No, deny |-> No], [present |-> TRUE, allow |-> Li({"md"}), deny |-> No],
+             [present |-> TRUE, allow |-> No, deny |-> Li({"test"})]}
+Init == /\ rules \in {r \in [RuleDirs -> RuleOpts] : /\ (WithTestsRule \/ ~r["tests"].present)
+                                                     /\ r["/"] \in RootOpts
+                                                     /\ (r["/"].present => ~r["src/app"].present)}
         /\ gdeny \in {No, Li({"test"}), Li({"md"})}
         /\ gpat \in [allow : {No, Li({"py"})}, deny : {No, Li({"src"}), Li({"py"})}]
         /\ done = FALSE
